@@ -696,3 +696,105 @@ class Evaluate(Contract):
         # ---- gradient write-back loops: shapes only here
         S.loop(2, inv=lambda L: [('range', (L.i >= 0) & (L.i <= N))], variant=lambda L: N - L.i, terms=lambda L: [L.i])
         S.loop(3, inv=lambda L: lay_inv() + [('range', (L.i >= 0) & (L.i <= lay.size()))], variant=lambda L: lay.size() - L.i, terms=lambda L: [L.i, L.i + 1, cnt - L.i - 1, cnt - L.i])
+
+
+# ================================================================================================ copies (C15)
+from values import SmallMat, StoreMat, DynSmallMat, StdVec, StructVec, MatVec, CountVec, StrV, Obj, PtrSlot, MutexV, EnumV
+
+TAG_THIS_TIME, TAG_THIS_SPATIAL, TAG_OTHER_TIME, TAG_OTHER_SPATIAL, TAG_THIS_WS, TAG_OTHER_WS, TAG_USER_MIN = 1, 2, 3, 4, 5, 6, 100
+
+
+def same_value(S, a, b, path, skipped):
+    """[(label, E|Quant)]: the value members of a equal those of b (logical contents: sizes and the cells below them)"""
+    out = []
+    if isinstance(a, (PtrSlot, MutexV)):
+        return out
+    if isinstance(a, Obj):
+        for f in a.fields:
+            if f == 'last_error_message_':
+                continue     # diagnostic text of the last failed validation: not part of what the property calls 'evaluates identically'
+            out += same_value(S, a.fields[f], b.fields[f], path + '.' + f, skipped)
+        return out
+    if isinstance(a, ScalarVar):
+        return [(path, a.rd().eq(b.rd()))]
+    if isinstance(a, StrV):
+        return [(path + '.empty', a.empty().eq(b.empty()))]
+    if isinstance(a, CountVec):
+        return [(path + '.size', a.size().eq(b.size()))]
+    if isinstance(a, StdVec):
+        return [(path + '.size', a.size().eq(b.size())), (path, S.forall(0, b.size(), lambda k: a.at(k).eq(b.at(k))))]
+    if isinstance(a, StructVec):
+        from ir import LV
+        cell = lambda v, f, t, k: E.idx(v.farr(f), k, t)
+        return [(path + '.size', a.size().eq(b.size())),
+                (path, S.forall(0, b.size(), lambda k: [cell(a, f, t, k).eq(cell(b, f, t, k)) for f, t in a.fields]))]
+    if isinstance(a, DynSmallMat) or isinstance(a, MatVec):
+        skipped.append(path)
+        return out
+    if isinstance(a, StoreMat):
+        return [(path + '.rows', E.const(a.R).eq(b.R)), (path, S.forall(0, b.R, lambda r: [a.at(r, c).eq(b.at(r, c)) for c in range(a.C)]))]
+    if isinstance(a, SmallMat):
+        return [(path, conj([a.at(r, c).eq(b.at(r, c)) for r in range(a.R) for c in range(a.C)]))]
+    skipped.append(path + ' (%s)' % type(a).__name__)
+    return out
+
+
+def source_well_formed(S, o):
+    tm, sm = o.fields['active_time_map_'], o.fields['active_spatial_map_']
+    return [('source_time_map_bound', mk_not(tm.null()) & (tm.tag().eq(TAG_OTHER_TIME) | (tm.tag() >= TAG_USER_MIN))),
+            ('source_spatial_map_bound', mk_not(sm.null()) & (sm.tag().eq(TAG_OTHER_SPATIAL) | (sm.tag() >= TAG_USER_MIN)))]
+
+
+def copy_post(S, this, other):
+    """an independent deep copy: same value members; default bindings re-pointed at the copy's own default maps, user maps shared;
+    the built-in workspace, if the source has one, is a fresh allocation with the same contents"""
+    skipped = []
+    out = [('copies_' + lab.strip('.'), p) for lab, p in same_value(S, this, other, '', skipped)]
+    for f, own, src_def in (('active_time_map_', TAG_THIS_TIME, TAG_OTHER_TIME), ('active_spatial_map_', TAG_THIS_SPATIAL, TAG_OTHER_SPATIAL)):
+        a, b = this.fields[f], other.fields[f]
+        out.append((f + 'bound', mk_not(a.null())))
+        out.append((f + 'default_binding_is_rebound_to_own_default', implies(b.tag().eq(src_def), a.tag().eq(own))))
+        out.append((f + 'user_map_is_shared', implies(b.tag() >= TAG_USER_MIN, a.tag().eq(b.tag()))))
+        out.append((f + 'never_points_into_the_source', a.tag().ne(src_def)))
+    wa, wb = this.fields['internal_ws_'], other.fields['internal_ws_']
+    out.append(('workspace_presence_copied', wa.null().eq(wb.null())))
+    out.append(('workspace_is_an_own_allocation', implies(mk_not(wa.null()), wa.tag().eq(TAG_THIS_WS))))
+    for lab, p in same_value(S, wa.target, wb.target, 'workspace', skipped):
+        out.append(('deep_copy_' + lab, under(mk_not(wb.null()), p)))
+    S.gen.notes_c15 = skipped
+    return out
+
+
+@register
+class CopyConstruct(Contract):
+    key = 'SplineOptimizer.ctor1'
+
+    def spec(self, S):
+        this, other = S.v('this'), S.v('other')
+        for lab, p in source_well_formed(S, other):
+            S.requires(p, lab)
+        S.terms(0)
+        S.assigns(this, this.fields['internal_ws_'].target)
+        for lab, p in copy_post(S, this, other):
+            S.ensures(p, lab)
+
+
+@register
+class CopyAssign(Contract):
+    key = 'SplineOptimizer.operator='
+
+    def spec(self, S):
+        this, other = S.v('this'), S.v('other')
+        S.terms(0)
+        if other is this:
+            # self-assignment: nothing changes
+            S.assigns()
+            return
+        for lab, p in source_well_formed(S, other):
+            S.requires(p, lab)
+        tm, sm = this.fields['active_time_map_'], this.fields['active_spatial_map_']
+        S.requires(mk_not(tm.null()) & (tm.tag().eq(TAG_THIS_TIME) | (tm.tag() >= TAG_USER_MIN)) &
+                   mk_not(sm.null()) & (sm.tag().eq(TAG_THIS_SPATIAL) | (sm.tag() >= TAG_USER_MIN)), 'target_maps_bound')
+        S.assigns(this, this.fields['internal_ws_'].target)
+        for lab, p in copy_post(S, this, other):
+            S.ensures(p, lab)
